@@ -93,9 +93,13 @@ def cl_poly_wrapper(n, r_max, ranges, symmetric, piecewise):
         return False, 'func/abel have shapes %r, %r for n = %d' % (P.func.shape, P.abel.shape, n)
     r = np.abs(P.r)
     func = np.zeros(n); ab = np.zeros(n); fs = np.zeros(n); as_ = np.zeros(n)
+    half = r[n // 2:] if symmetric else r
     for (a, b, c, r0, s, red) in ranges:
         f1, a1, s1, s2 = poly_reference(r, a, b, c, r0, s)
-        func += f1; ab += a1; fs += s1; as_ += s2
+        s3, s4 = poly_scales(half, a, b, c, r0, s, red)
+        if symmetric:
+            s3 = np.concatenate([s3[:0:-1], s3]); s4 = np.concatenate([s4[:0:-1], s4])
+        func += f1; ab += a1; fs += s1 + s3; as_ += s2 + s4
     ok, d = _cmp('func', P.func, func, fs, RTOL_FUNC * 100)
     if not ok:
         return ok, d
